@@ -23,12 +23,29 @@ func init() {
 		p := jacFrom(a[1:4])
 		var r secp.JacobianPoint
 		secp.ScalarMultNonConst(k, &p, &r)
+		// the result object may hold anything beforehand and may be the operand itself
+		junk := secp.VerifBytePoints()[3][77]
+		pc := p
+		secp.ScalarMultNonConst(k, &pc, &junk)
+		inplace := p
+		secp.ScalarMultNonConst(k, &inplace, &inplace)
+		if jacHex(&junk) != jacHex(&r) || jacHex(&inplace) != jacHex(&r) {
+			return "DEPENDS-ON-RESULT-OBJECT fresh=" + jacHex(&r) + " reused=" + jacHex(&junk) + " inplace=" + jacHex(&inplace)
+		}
+		if jacHex(&pc) != jacHex(&p) {
+			return "OPERAND-MODIFIED"
+		}
 		return jacHex(&r)
 	}
 	opImpl["sbmul"] = func(a []string) string {
 		k := scalarFromHex(a[0])
 		var r secp.JacobianPoint
 		secp.ScalarBaseMultNonConst(k, &r)
+		junk := secp.VerifBytePoints()[5][9]
+		secp.ScalarBaseMultNonConst(k, &junk)
+		if jacHex(&junk) != jacHex(&r) {
+			return "DEPENDS-ON-RESULT-OBJECT fresh=" + jacHex(&r) + " reused=" + jacHex(&junk)
+		}
 		return jacHex(&r)
 	}
 	opImpl["naf"] = func(a []string) string {
